@@ -64,11 +64,13 @@ type Gate struct {
 	wArrived chan struct{}
 	wRelease chan struct{}
 	wSuspend chan struct{}
+	wRound   chan struct{} // the worker is parked before a phase-2 round of a removal
+	parkRound bool
 }
 
 func newGate() *Gate {
 	return &Gate{arrived: make(chan struct{}, 1), release: make(chan struct{}),
-		wArrived: make(chan struct{}, 1), wRelease: make(chan struct{}), wSuspend: make(chan struct{}, 8)}
+		wArrived: make(chan struct{}, 1), wRelease: make(chan struct{}), wSuspend: make(chan struct{}, 8), wRound: make(chan struct{}, 1)}
 }
 
 var (
@@ -105,6 +107,15 @@ func init() {
 			select {
 			case g.wSuspend <- struct{}{}:
 			default:
+			}
+		case "remove.round":
+			g.mu.Lock()
+			park := g.parkRound
+			g.parkRound = false
+			g.mu.Unlock()
+			if park {
+				g.wRound <- struct{}{}
+				<-g.wRelease
 			}
 		case "handle.top":
 			g.arrived <- struct{}{}
@@ -293,6 +304,8 @@ func (w *World) start() error {
 	}
 }
 
+var errParkedAtRound = fmt.Errorf("worker parked between the phases of a removal")
+
 // workerStep lets the parked worker take one task and run it to completion; every time the
 // worker asks the handler to suspend, the parked handler is released to honour exactly that.
 // Returns the number of suspend/resume rounds.
@@ -308,6 +321,8 @@ func (w *World) workerStep() (int, error) {
 	rounds := 0
 	for {
 		select {
+		case <-w.G.wRound:
+			return rounds, errParkedAtRound
 		case <-w.G.wArrived:
 			return rounds, nil
 		case <-w.G.wSuspend:
@@ -651,6 +666,21 @@ func (w *World) Do(s *Step) error {
 			if err == nil && ready != s.Done {
 				return fmt.Errorf("harness: model-mismatch: rescan batch left the wallet ready=%v, the model says %v", ready, s.Done)
 			}
+		}
+	case "RemoveStepA":
+		// phase 1 of the removal; the worker then parks before the first round of phase 2, holding the task
+		w.G.mu.Lock()
+		w.G.parkRound = true
+		w.G.mu.Unlock()
+		if _, err := w.workerStep(); err != errParkedAtRound {
+			if err == nil {
+				return fmt.Errorf("harness: model-mismatch: the removal finished without reaching its second phase")
+			}
+			return err
+		}
+	case "RemoveStepB":
+		if _, err := w.workerStep(); err != nil {
+			return err
 		}
 	case "RemoveStepCrash":
 		// the process dies right after the k-th database commit of the removal the worker runs
@@ -1269,6 +1299,8 @@ func Run(u *Universe, h History, dir, mode string, opt Options) Result {
 		return CountQueryCalls(u, h, dir, opt.Api)
 	case "txbuild":
 		return ReplayTxBuild(u, h, dir, opt.Seed, opt.Sweep)
+	case "free":
+		return ReplayFree(u, h, dir, opt.Seed)
 	case "stop-free":
 		return StopFree(u, opt.Tasks, opt.Blocks, opt.Seed, opt.Final, dir)
 	case "gap":
